@@ -61,6 +61,12 @@ def shrink(eng, record, fkey, known, budget=300, tester=None):
         used += 1
         if v2 is not None:
             best, v = cand, v2
+    if best.get('blind'):
+        cand = {k: x for k, x in best.items() if k != 'blind'}
+        v2 = fails_with(eng, cand, fkey, known)
+        used += 1
+        if v2 is not None:
+            best, v = cand, v2
     if best.get('alias'):
         cand = {k: x for k, x in best.items() if k != 'alias'}
         v2 = fails_with(eng, cand, fkey, known)
